@@ -55,7 +55,10 @@ def compare(sc, m, res):
     for name in sched.SD_TABLES:
         if not sched.same_bits(np.asarray(getattr(res, name).index, dtype=float), grid):
             return [V('no-grid', f"{name} is not indexed by the result grid")], {}
-    assoc = association(sc, m, grid)
+    # the reference evaluates the measurement models on FRESH objects built from the
+    # scenario, so that state carried inside the objects the filter used cannot reach it
+    m_ref = FW.materialise(sc)
+    assoc = association(sc, m_ref, grid)
     inc = m['increments'] if kn.get('increments_given', True) else None
     scale = float(kn.get('error_scale', 1.0))
     sig = [float(s) * scale for s in kn['sigmas']]
@@ -64,7 +67,7 @@ def compare(sc, m, res):
     ap = None if kn.get('models_omitted') else FW.scaled_model_params(kn['accel_model'],
                                                                      scale)
     xs, Ps, innov, gl, al = refkf.reference_estimate(
-        nominal, computed, sig, gp, ap, m['measurements'], inc, grid,
+        nominal, computed, sig, gp, ap, m_ref['measurements'], inc, grid,
         [(a, b, d) for a, b, c, d in assoc], wa)
     model = em.InsErrorModel(wa)
     ni = model.n_states
@@ -217,6 +220,21 @@ def execute(sc):
                   f"no-result/{out.error_class}")]
     else:
         viol, met = compare(sc, m, out.result)
+        if sc['knobs'].get('rerun') and not viol:
+            # second run with the SAME measurement and sensor-model objects: it must equal
+            # the estimator just the same
+            FW.reset_spies(m)
+            out = FW.run_filter(sc, m, reuse=out.kwargs)
+            if out.error_class is not None:
+                viol = [V('no-result', "(second run with the same objects) feedforward "
+                                       f"filter did not return: {out.error}",
+                          f"rerun/no-result/{out.error_class}")]
+            else:
+                viol, _met2 = compare(sc, m, out.result)
+                for v in viol:
+                    v['detail'] = "(second run with the same measurement and model " \
+                                  "objects) " + v['detail']
+                    v['key'] = 'rerun/' + v['key']
     kn = sc['knobs']
     probes = {}
     for which in ('gyro_model', 'accel_model'):
@@ -235,6 +253,8 @@ def execute(sc):
         probes['increments_none'] = 1
     if met.get('blocks', 0) >= 3:
         probes['three_or_more_blocks'] = 1
+    if kn.get('rerun'):
+        probes['second_run_same_objects'] = 1
     if any(s['lever'] is not None for s in sc['sensors']):
         probes['lever_arm'] = 1
     probes.update({k: v for k, v in FW.probes(sc, m, out).items()
